@@ -16,11 +16,16 @@ class Regen(Exception):
     """the generated program is unsuitable (evaluation budget / magnitude): generate another one"""
 
 
-class Ty:
-    __slots__ = ("kind", "text", "ref", "elem", "n", "size")
+INT_BYTES = {"i32": 4, "i64": 8, "u16": 2, "u32": 4, "u64": 8, "usize": 8}
 
-    def __init__(self, kind, text, ref=None, elem=None, n=None, size=None):
+
+class Ty:
+    """kind: i64 | int (any other integer type, alias, distinct) | struct | enum | arr; `bytes` = size of an integer type"""
+    __slots__ = ("kind", "text", "ref", "elem", "n", "size", "bytes")
+
+    def __init__(self, kind, text, ref=None, elem=None, n=None, size=None, bytes_=None):
         self.kind, self.text, self.ref, self.elem, self.n, self.size = kind, text, ref, elem, n, size
+        self.bytes = bytes_ if bytes_ is not None else INT_BYTES.get(text)
 
 
 I64 = Ty("i64", "i64")
@@ -100,8 +105,8 @@ def rstmt(s):
         return f"{s[1]}{ann} = {rx(s[3])};" if s[2] else f"{s[1]} := {rx(s[3])};"
     if t == "ev":
         return f"vr_i64({s[1]}, {rx(s[2])});"
-    if t == "evb":
-        return f"vr_bytes({s[1]}, ^{s[2]}, 1);"
+    if t == "evb":      # the tag byte of an enum is the last of the s[3] bytes printed
+        return f"vr_bytes({s[1]}, ^{s[2]}, {s[3]});"
     if t == "larr":
         return f"{s[1]} : [{rx(s[2])}]i64;"
     if t == "asg":
@@ -494,27 +499,30 @@ class Prog:
     def gen_alias(self):
         r = self.rng
         name = self.name("T")
+        # aliases of other globals are kept to ~1/3 of the aliases: capy cannot use them across files (kf/C20_xfile_alias), and every split layout with one
+        # is lost to that finding
         k = r.below(10)
-        if k < 2 and self.struct_tys:
+        if k < 1 and self.struct_tys:
             t = r.pick(self.struct_tys)
             self.struct_tys.append(Ty("struct", f"@{{{name}}}", ref=t.ref))
             self.add(name, "alias", f"{name} :: {t.text};")
-        elif k < 3 and self.enum_tys:
+        elif k < 2 and self.enum_tys:
             t = r.pick(self.enum_tys)
             self.enum_tys.append(Ty("enum", f"@{{{name}}}", ref=t.ref))
             self.add(name, "alias", f"{name} :: {t.text};")
-        elif k < 6 and self.int_tys:
+        elif k < 4 and self.int_tys:
             t = r.pick(self.int_tys)
-            self.int_tys.append(Ty("int", f"@{{{name}}}"))
+            self.int_tys.append(Ty("int", f"@{{{name}}}", bytes_=t.bytes))
             self.add(name, "alias", f"{name} :: {t.text};")
         else:
-            self.int_tys.append(Ty("int", f"@{{{name}}}"))
-            self.add(name, "alias", f"{name} :: {r.pick(BUILTIN_INTS)};")
+            b = r.pick(BUILTIN_INTS)
+            self.int_tys.append(Ty("int", f"@{{{name}}}", bytes_=INT_BYTES[b]))
+            self.add(name, "alias", f"{name} :: {b};")
 
     def gen_distinct(self):
         name = self.name("D")
         t = self.pick_int_ty()
-        self.int_tys.append(Ty("int", f"@{{{name}}}"))
+        self.int_tys.append(Ty("int", f"@{{{name}}}", bytes_=t.bytes))
         self.add(name, "distinct", f"{name} :: distinct {t.text};")
 
     def gen_cttype(self):
@@ -525,9 +533,11 @@ class Prog:
             k = r.range(0, 8)
             a, b = r.sample(["i64", "i32", "u32", "u64"], 2)
             self.add(name, "cttype", f"{name} :: comptime {{ if @{{{c}}} > {k} {{ {a} }} else {{ {b} }} }};")
+            chosen = a if self.gval[c] > k else b
         else:
-            self.add(name, "cttype", f"{name} :: comptime {{ {r.pick(['i64', 'i32', 'u32'])} }};")
-        self.int_tys.append(Ty("int", f"@{{{name}}}"))
+            chosen = r.pick(["i64", "i32", "u32"])
+            self.add(name, "cttype", f"{name} :: comptime {{ {chosen} }};")
+        self.int_tys.append(Ty("int", f"@{{{name}}}", bytes_=INT_BYTES[chosen]))
 
     def gen_struct(self):
         r = self.rng
@@ -590,10 +600,13 @@ class Prog:
             if tus and r.chance(1, 3):
                 ann = r.pick(tus).text
         lo, hi = {"usize": (1, 5), "u8": (0, 250), "i64": (0, 900), "i32": (0, 900)}[sem]
+        if sem == "i64" and self.cints and r.chance(1, 2):
+            same = same + list(self.cints)      # `N :: K;` where K is a comptime global
         if k < 3 and same:
             ref = r.pick(same)
             val = self.gval[ref]
-            text = f"{name} :: @{{{ref}}};" if (r.chance(1, 2) or ann is None) else f"{name} : {ann} : @{{{ref}}};"
+            # a comptime global made of literals only is an i32: an i64 annotation on a binding to it is not generated (capy accepts it and then reads 8 bytes)
+            text = f"{name} :: @{{{ref}}};" if (r.chance(1, 2) or ann is None or ref in self.cints) else f"{name} : {ann} : @{{{ref}}};"
         elif k < 7 and sem != "i32" and (self.consts or self.pure_fns()):
             ctx = self.pure_ctx()
             e = self.gen_int(ctx, 2)
@@ -617,7 +630,7 @@ class Prog:
     def gen_usize_alias(self):
         name = self.name("T")
         self.add(name, "alias", f"{name} :: usize;")
-        t = Ty("int", f"@{{{name}}}")
+        t = Ty("int", f"@{{{name}}}", bytes_=8)
         self._usize_aliases = tuple(self._usize_aliases) + (t.text,)
         # not registered in int_tys for value generation: 64-bit anyway, but keep it out so that `usize` casts stay rare
         self.int_tys.append(t)
@@ -722,26 +735,30 @@ class Prog:
             ret = I64
             e = self.small(ctx, 2)
             for n, t in ctx.vars:
-                if t.kind == "i64" and n.startswith("t") and r.chance(1, 2):
+                if t.kind == "i64":
                     e = ("mod", ("bin", "+", e, ("var", n)), r.pick(MODS))
         f = Fn(name, params, ret, ("block", ctx.stmts, e), pure)
         self.fns[name] = f
         self.fn_order.append(name)
         self.add(name, "fn", self.fn_text(f))
 
-    def gen_recfn(self):
+    def gen_recfn(self, single=False):
+        """a mutually recursive pair (or one self-recursive function) with a bounded depth argument"""
         r = self.rng
-        na, nb = self.name("r"), self.name("r")
-        for me, other in ((na, nb), (nb, na)):
+        if single:
+            na = nb = self.name("r")
+        else:
+            na, nb = self.name("r"), self.name("r")
+        for me, other in (((na, nb),) if single else ((na, nb), (nb, na))):
             params = [("n", I64), ("acc", I64)]
             cb = Ctx([("acc", I64)], self.plain_callees(True), True, 1)
-            base = self.small(cb, 1)
+            base = ("mod", ("bin", "+", ("var", "acc"), self.gen_int(cb, 1)), r.pick(MODS))
             cs = Ctx([("acc", I64), ("n", I64)], self.plain_callees(True), True, 1)
-            step = self.small(cs, 1)
+            step = ("mod", ("bin", "+", ("bin", "*", ("var", "acc"), ("lit", r.range(2, 5))), self.gen_int(cs, 1)), r.pick(MODS))
             body = ("block", [], ("if", "<=", ("var", "n"), ("lit", 0), ("block", cb.stmts, base),
                                   ("block", cs.stmts, ("call", other, [("bin", "-", ("var", "n"), ("lit", 1)), step]))))
             self.fns[me] = Fn(me, params, I64, body, True)
-        for me in (na, nb):
+        for me in ((na,) if single else (na, nb)):
             self.add(me, "recfn", self.fn_text(self.fns[me]))
         self.rec.append((na, nb))
 
@@ -757,7 +774,7 @@ class Prog:
             ctx.stmts.append(("larr", "a", ("var", "n")))
             ctx.stmts.append(("let", "l", "i64", ("len", ("var", "a"))))
             ctx.vars.append(("l", I64))
-            e = ("mod", ("bin", "+", ("bin", "*", ("var", "l"), ("lit", r.range(2, 9))), self.gen_int(ctx, 2)), r.pick(MODS))
+            e = ("mod", ("bin", "+", ("bin", "+", ("bin", "*", ("var", "l"), ("lit", r.range(2, 9))), ("var", "x")), self.gen_int(ctx, 2)), r.pick(MODS))
             f = Fn(name, params, I64, ("block", ctx.stmts, e), pure, ct=[("n", "usize")], gkind="genN")
         elif gkind == "genT":
             params = [("x", "T")]
@@ -822,8 +839,9 @@ class Prog:
                     e = self.local("e")
                     S.append(("let", e, ty.text, self.mk_enum(ty, v, ctx, 1)))
                     S.append(("ev", self.event(), self.digest(e, ty, ctx)))
-                    if all(p is None for _, p, _ in vs):
-                        S.append(("evb", self.event(), e))
+                    if all(p is None or p.kind in ("i64", "int") for _, p, _ in vs):
+                        # README: the discriminant is a u8 that comes after the payload
+                        S.append(("evb", self.event(), e, max([0] + [p.bytes for _, p, _ in vs if p is not None]) + 1))
                 return
             if ty.kind == "struct" and g in self.structs and r.chance(1, 3):
                 # default-initialised local (only when no enum is inside: enums have no default value)
@@ -925,7 +943,9 @@ class Prog:
             elif k == "fn":
                 self.gen_fn()
             elif k == "recfn":
-                if len(self.order) + 2 <= n:
+                if r.chance(1, 3):
+                    self.gen_recfn(single=True)
+                elif len(self.order) + 2 <= n:
                     self.gen_recfn()
             elif k in ("genT", "genN", "genId"):
                 self.gen_generic(k)
